@@ -196,6 +196,88 @@ std::string summarize_sanitizer(const std::string& err, std::string& kind)
   return summary;
 }
 
+// ThreadSanitizer keeps running after a report (halt_on_error=0) and the child leaves through _exit(), so data races are
+// harvested from the captured stderr. A report counts only when the code performing BOTH accesses - the innermost frame that is
+// not in the C++ standard library, the sanitizer runtime or the simulator - lies in an iora header.
+bool frame_file(const std::string& line, std::string& fn, std::string& file)
+{
+  size_t h = line.find('#');
+  if (h == std::string::npos) return false;
+  size_t sp = line.find(' ', h);
+  if (sp == std::string::npos) return false;
+  std::string rest = line.substr(sp + 1);
+  size_t mod = rest.rfind(" (");
+  if (mod != std::string::npos) rest = rest.substr(0, mod);
+  size_t fs = rest.rfind(' ');
+  if (fs == std::string::npos) return false;
+  fn = rest.substr(0, fs);
+  file = rest.substr(fs + 1);
+  size_t par = fn.find('(');
+  if (par != std::string::npos) fn = fn.substr(0, par);
+  if (fn.size() > 70) fn = fn.substr(0, 70);
+  return true;
+}
+std::string scan_tsan(const std::string& err, int& relevant)
+{
+  relevant = 0;
+  std::string firstSig;
+  size_t pos = 0;
+  while ((pos = err.find("WARNING: ThreadSanitizer:", pos)) != std::string::npos)
+  {
+    size_t end = err.find("==================", pos);
+    if (end == std::string::npos) end = err.size();
+    std::string blk = err.substr(pos, end - pos);
+    pos = end;
+    std::string kind = blk.substr(26, blk.find('\n') - 26);
+    size_t pp = kind.find(" (pid");
+    if (pp != std::string::npos) kind = kind.substr(0, pp);
+    // split into stacks: a stack starts at a line that does not begin with "    #" and is followed by frame lines
+    std::vector<std::string> owners; // innermost relevant frame per access stack
+    std::stringstream ss(blk);
+    std::string line;
+    bool inAccess = false, found = false;
+    int stacks = 0;
+    while (std::getline(ss, line))
+    {
+      bool isFrame = line.compare(0, 5, "    #") == 0;
+      if (!isFrame)
+      {
+        bool accessHdr = line.find(" of size ") != std::string::npos && (line.find("rite") != std::string::npos || line.find("ead") != std::string::npos);
+        if (accessHdr) { inAccess = true; found = false; stacks++; if (stacks > 2) break; }
+        else if (!line.empty() && line[0] == ' ' && line.find("Location is") != std::string::npos) inAccess = false;
+        else if (line.find("Thread T") != std::string::npos || line.find("Mutex M") != std::string::npos) inAccess = false;
+        continue;
+      }
+      if (!inAccess || found) continue;
+      std::string fn, file;
+      if (!frame_file(line, fn, file)) continue;
+      if (file.find("/usr/include/") == 0 || file.find("/usr/lib/") == 0 || file.find("libsanitizer") != std::string::npos || file.find("<null>") != std::string::npos) continue;
+      found = true;
+      size_t io = file.find("/include/iora/");
+      if (io != std::string::npos)
+      {
+        std::string f = file.substr(io + 9);
+        size_t col = f.find(':');
+        if (col != std::string::npos) f = f.substr(0, col);
+        owners.push_back(fn + "[" + f + "]");
+      }
+      else owners.push_back("");
+    }
+    bool rel = kind.find("data race") != std::string::npos ? (owners.size() >= 2 && !owners[0].empty() && !owners[1].empty()) : (!owners.empty() && !owners[0].empty());
+    if (rel)
+    {
+      relevant++;
+      if (firstSig.empty())
+      {
+        std::string a = owners[0], b = owners.size() > 1 ? owners[1] : "";
+        if (b < a) std::swap(a, b);
+        firstSig = "tsan " + kind + " " + a + " / " + b;
+      }
+    }
+  }
+  return firstSig;
+}
+
 std::string abnormal_json(const RunSpec& s, const char* oracle, const std::string& msg, const std::string& errtail)
 {
   std::string j = "{\"verdict\":\"violation\",\"oracle\":\"";
@@ -289,6 +371,13 @@ std::string run_one(const RunSpec& spec, unsigned wall_timeout_s)
   {
     std::string t = read_file_tail(errpath, 0);
     fwrite(t.data(), 1, t.size(), stderr);
+  }
+  if (__tsan_ignore_thread_begin && complete)
+  {
+    std::string t = read_file_tail(errpath, 0);
+    int rel = 0;
+    std::string sig = scan_tsan(t, rel);
+    if (rel > 0) return abnormal_json(spec, "sanitizer", sig + " (" + std::to_string(rel) + " relevant report(s))", t);
   }
   if (complete && WIFEXITED(st) && WEXITSTATUS(st) == 0) return out;
   std::string tail = read_file_tail(errpath, 8000);
